@@ -1210,6 +1210,36 @@ func (e *SpecEnv) call(n *ECall) (Val, error) {
 				return Val{}, fmt.Errorf("hdrGet on non-header")
 			}
 			return Val{T: c.hdrGetTerm(e.cur, m, k.T), Typ: types.Typ[types.String]}, nil
+		case "mapget":
+			// mapget(m, k): the Go value of m[k] (the zero value when m is nil or k is absent)
+			m, err := e.term(n.Args[0])
+			if err != nil {
+				return Val{}, err
+			}
+			k, err := e.term(n.Args[1])
+			if err != nil {
+				return Val{}, err
+			}
+			mt, ok := m.Typ.Underlying().(*types.Map)
+			if !ok {
+				return Val{}, fmt.Errorf("mapget on non-map")
+			}
+			k, _ = e.fixNil(k, Val{Typ: mt.Key()})
+			d, vh := c.mapHeaps(mt)
+			dom := "(select (select " + c.heapGet(e.cur, d, c.heapSort[d]) + " " + m.T + ") " + k.T + ")"
+			raw := "(select (select " + c.heapGet(e.cur, vh, c.heapSort[vh]) + " " + m.T + ") " + k.T + ")"
+			return Val{T: ite(and(not(eq(m.T, "0")), dom), raw, c.zero(mt.Elem())), Typ: mt.Elem()}, nil
+		case "canonHeader":
+			// canonHeader(k): http.CanonicalHeaderKey(k), the same uninterpreted
+			// function the http.Header models use
+			k, err := e.term(n.Args[0])
+			if err != nil {
+				return Val{}, err
+			}
+			c.declFun("canonHeader", []string{"Str"}, "Str")
+			t := "(canonHeader " + k.T + ")"
+			c.assert("(= (canonHeader " + t + ") " + t + ")")
+			return Val{T: t, Typ: types.Typ[types.String]}, nil
 		case "iface":
 			v, err := e.term(n.Args[0])
 			if err != nil {
